@@ -184,7 +184,9 @@ def check(tier, seed, replay=None):
     file_plans = []
     if not replay:
         for argv, fails in (([good, good2], False), (["--take=1", good, good2], False), ([good, missing], True), (["--take=1", good, missing], True),
-                            (["--take=1", "--merge", good, missing], True), ([missing], True), (["--take=0", good, missing], True)):
+                            (["--take=1", "--merge", good, missing], True), ([missing], True), (["--take=0", good, missing], True),
+                            # an operand that is there, reports length 0 and fails when it is read
+                            (["/proc/self/mem"], True), ([good, "/proc/self/mem"], True), (["--on-error=stderr", "/proc/self/mem", good], True)):
             file_plans.append((argv, fails))
     # in-process twin for the rows (same argv and input through jawk::go)
     twin = run_cases(jvh, [{"id": i, "argv": p["argv"], "stdin": p["stdin"]} for i, p in enumerate(plans)])
